@@ -12,6 +12,7 @@ package main
 
 import (
 	"bufio"
+	"crypto/tls"
 	"fmt"
 	"net"
 	"net/http"
@@ -28,6 +29,7 @@ import (
 	"github.com/fatedier/frp/pkg/msg"
 	netpkg "github.com/fatedier/frp/pkg/util/net"
 	"github.com/fatedier/frp/pkg/util/util"
+	"github.com/fatedier/frp/pkg/util/verifhook"
 	"github.com/fatedier/frp/server/controller"
 
 	"verifharness/hx"
@@ -370,6 +372,7 @@ type sess struct {
 }
 
 type world struct {
+	handoff      *gate // a user connection held at vhost.mux.before_handoff
 	smallRcvNext bool // the next login uses a socket with a tiny receive buffer (see clog)
 	addr                         string
 	srv                          *hx.Server
@@ -1180,4 +1183,67 @@ func loginSmallRcv(srv *hx.Server, runID string) (*hx.Peer, *msg.LoginResp, erro
 		return nil, &resp, err
 	}
 	return &hx.Peer{S: srv, Conn: conn, RW: rw, RunID: resp.RunID, Token: hx.DefaultToken}, &resp, nil
+}
+
+
+// userConnAtHandoff: a TLS client hello for `domain` is sent to the vhost https port; the muxer routes it and is
+// held right before the hand-over to the proxy's listener.  Returns nil when the gate is not reached (a tree
+// without the gate line: the scenario is skipped and counted).
+func (w *world) userConnAtHandoff(domain string) net.Conn {
+	g := installGate("vhost.mux.before_handoff", strings.ToLower(domain))
+	conn, err := net.DialTimeout("tcp", net.JoinHostPort(w.addr, fmt.Sprint(w.srv.Cfg.VhostHTTPSPort)), time.Second)
+	if err != nil {
+		verifhook.Install(nil)
+		return nil
+	}
+	go func() {
+		// the handshake never completes (nobody answers); only the ClientHello matters
+		tc := tls.Client(&passConn{Conn: conn}, &tls.Config{ServerName: domain, InsecureSkipVerify: true})
+		_ = tc.Handshake()
+	}()
+	select {
+	case <-g.reached:
+		w.handoff = g
+		w.rec.count("handoff-held")
+		return conn
+	case <-time.After(700 * time.Millisecond):
+		verifhook.Install(nil)
+		close(g.release)
+		conn.Close()
+		w.rec.count("handoff-gate-missing")
+		return nil
+	}
+}
+
+func (w *world) releaseHandoff() {
+	if w.handoff != nil {
+		close(w.handoff.release)
+		w.handoff = nil
+	}
+}
+
+// passConn: the tls client writes its hello through it; reads are left to the harness (ConnClosedWithin)
+type passConn struct{ net.Conn }
+
+func (p *passConn) Read(b []byte) (int, error) { select {} }
+
+
+// helloBurst: n connections to the vhost https port, each sending a TLS ClientHello for `domain`, started at once
+func (w *world) helloBurst(domain string, n int) []net.Conn {
+	out := []net.Conn{}
+	for i := 0; i < n; i++ {
+		conn, err := net.DialTimeout("tcp", net.JoinHostPort(w.addr, fmt.Sprint(w.srv.Cfg.VhostHTTPSPort)), time.Second)
+		if err != nil {
+			continue
+		}
+		out = append(out, conn)
+	}
+	for _, conn := range out {
+		go func(conn net.Conn) {
+			tc := tls.Client(&passConn{Conn: conn}, &tls.Config{ServerName: domain, InsecureSkipVerify: true})
+			_ = tc.Handshake()
+		}(conn)
+	}
+	w.rec.count("hello-burst")
+	return out
 }
